@@ -430,6 +430,11 @@ func judgeSequential(w *proxyWorld, res *Result) {
 				age, err := strconv.Atoi(a)
 				lo := int(math.Floor(ex.SendT.Sub(st.hi).Seconds()))
 				hi := int(math.Ceil(ex.RecvT.Sub(st.lo).Seconds()))
+				// A response that was already old when it arrived (its Date lies in the past) may be
+				// given the age RFC 9111 computes: that initial age plus the time in the store.
+				if dt, derr := http.ParseTime(o.RespHdr.Get("Date")); derr == nil && o.T.After(dt) {
+					hi += int(math.Ceil(o.T.Sub(dt).Seconds()))
+				}
 				if err != nil || age < lo || age > hi {
 					res.violate("C03.c", "age-inconsistent", "%s: Age %q but the response was stored between +%v and +%v and served at +%v (expected %d..%d) [%s]", desc, a, st.lo.Sub(w.start), st.hi.Sub(w.start), ex.SendT.Sub(w.start), lo, hi, pd)
 				}
@@ -882,10 +887,10 @@ func judgeConcurrent(w *proxyWorld, res *Result) {
 		res.Evals++
 		for _, ph := range phaseStart {
 			os := phases[ph]
+			// One fetch per phase, also when a client hangs up: the shared fetch is detached from the
+			// client that happens to lead it, so a disconnect of a leader or of a follower changes
+			// nothing for the others - including how often the origin is asked.
 			allowed := 1
-			if disconnects > 0 {
-				allowed = 1 + disconnects
-			}
 			if len(os) > allowed {
 				var ds []string
 				for _, o := range os {
